@@ -168,11 +168,11 @@ class Estimate
 
   //! \f$ \left({\partial\sin x\over\partial x}\right)^2 = (1-\sin^2x) \f$
   friend const Estimate sin (const Estimate& u)
-  { T val = ::sin (u.val); return Estimate (val, (1-val*val)*u.var); }
+  { T del = ::cos (u.val); return Estimate (::sin (u.val), del*del*u.var); }
 
   //! \f$ \left({\partial\cos x\over\partial x}\right)^2 = (1-\cos^2x) \f$
   friend const Estimate cos (const Estimate& u)
-  { T val = ::cos (u.val); return Estimate (val, (1-val*val)*u.var); }
+  { T del = ::sin (u.val); return Estimate (::cos (u.val), del*del*u.var); }
 
   //! \f$ {\partial\over\partial x} \cos^-1 (x) = -(1-x^2)^{-1/2} \f$
   friend const Estimate acos (const Estimate& u)
@@ -195,7 +195,7 @@ class Estimate
 
   //! \f$ \left({\partial\cosh x\over\partial x}\right)^2 = (\cosh^2x-1) \f$
   friend const Estimate cosh (const Estimate& u)
-  { T val = ::cosh (u.val); return Estimate (val, (val*val-1)*u.var); }
+  { T del = ::sinh (u.val); return Estimate (::cosh (u.val), del*del*u.var); }
 
   //! \f$ {\partial\over\partial x} \tanh^-1 (x) = (1-x^2)^{-1} \f$
   friend const Estimate atanh (const Estimate& u)
